@@ -140,6 +140,15 @@ func matchKnown(kfs []KnownFinding, v Violation) *KnownFinding {
 	return nil
 }
 
+// outDir: evidence and replay files go below /verif unless redirected (used only when the harness
+// is pointed at a scratch copy of the repository to try out seeded changes).
+func outDir(env, def string) string {
+	if d := os.Getenv(env); d != "" {
+		return d
+	}
+	return filepath.Join(VerifDir, def)
+}
+
 // Seed returns VERIF_SEED or the default.
 func Seed() int64 {
 	if s := os.Getenv("VERIF_SEED"); s != "" {
@@ -372,7 +381,7 @@ func CheckMain(id, tier string) int {
 	exit := 0
 	nviol := 0
 	knownHit := map[string]int{}
-	replayDir := filepath.Join(VerifDir, "replays", id)
+	replayDir := filepath.Join(outDir("VERIF_REPLAY_DIR", "replays"), id)
 	tree := TreeHash()
 	for _, sig := range sigs {
 		v := bySig[sig][0]
@@ -450,9 +459,10 @@ func CheckMain(id, tier string) int {
 	if len(samples) == 0 {
 		ev.Coverage["samples"] = []any{"(no sample recorded)"}
 	}
-	os.MkdirAll(filepath.Join(VerifDir, "evidence"), 0755)
+	evDir := outDir("VERIF_EVIDENCE_DIR", "evidence")
+	os.MkdirAll(evDir, 0755)
 	b, _ := json.MarshalIndent(ev, "", " ")
-	if err := os.WriteFile(filepath.Join(VerifDir, "evidence", id+".json"), b, 0644); err != nil {
+	if err := os.WriteFile(filepath.Join(evDir, id+".json"), b, 0644); err != nil {
 		fmt.Fprintln(os.Stderr, err)
 		return 2
 	}
